@@ -124,6 +124,10 @@ def obligations(tier):
                 o.splits = o.splits[1::2]
             obs.append(o)
     for o in c09.obligations(tier):
+        if o.name == 'FAIL-limit':
+            o2 = Ob('FAIL-limit-decodable', o.fn, splits=o.splits[:2], timeout=o.timeout, replay='replay_fail', sym=o.sym,
+                    bounds=o.bounds)
+            obs.append(o2)     # after a refused write the files must still satisfy the size equation
         ctxs = [sp for sp in o.splits if sp.get('ctx')]
         if ctxs:
             o.splits = ctxs
